@@ -38,6 +38,13 @@ Record cfg := {
   g_cap : Z;         (* capacity after rounding (muggle_next_pow_of_2) *)
   g_nw : nat;        (* writers are threads 1..g_nw, the reader is thread 0 *)
   g_maxtry : nat;    (* harness: a writer gives a message up after so many FULL results (0: never) *)
+  g_val : (nat * nat) -> Z;
+                     (* the POINTER VALUE message (writer, seq) carries, as a canonical code: a message is an
+                        opaque void* for the channel.  tag m = the address of the message's own harness payload
+                        (the default), -1 = NULL, -3 = (void* )-1, -10-n = the small integer n, >= 9000 = the address
+                        of a harness object shared by several messages (repeated value).  The model moves the
+                        identities and never inspects the values: g_val occurs in the reader's "got" / "fld"
+                        notes only *)
 }.
 
 (* rounding of the requested capacity *)
@@ -257,6 +264,9 @@ Definition nacc (s : csys) : nat := length (c_acc s).
 Definition wnext (g : cfg) (s : csys) : Z := (c_wcur s + 1) mod g_cap g.
 Definition rnext (g : cfg) (s : csys) : Z := (c_rcur s + 1) mod g_cap g.
 
+(* the pointer value the reader received (NULL when the slot was never written) *)
+Definition valopt (g : cfg) (d : option msg) : Z := match d with Some m => g_val g m | None => -1 end.
+
 (* chan->blocks[chan->write_cursor].data = data   (ghost: was the slot still unread?) *)
 Definition slot_write (t : nat) (m : msg) (s : csys) : csys :=
   let i := c_wcur s in
@@ -367,11 +377,17 @@ Definition cmicro (g : cfg) (s : csys) (t : nat) (ch : nat) : option (csys * lis
   | RRet =>
     let d := t_d x in
     let cov := match d with Some m' => Nat.eqb (vget (t_view x) (CPay m')) (c_pver s m') | None => true end in
+    (* the harness dereferences the received pointer only when it is the address of a harness object: the
+       message's own payload (written by its producer just before the hand-over: view discipline) or a shared
+       object (field set before the threads start); NULL, (void* )-1 and small integers are only reported *)
     let fld := match d with
-               | Some m' => if cov then c_pay s m' else if Nat.eqb ch 1 then 0 else c_pay s m'
+               | Some m' =>
+                 if Z.eqb (g_val g m') (tag m')
+                 then (if cov then c_pay s m' else if Nat.eqb ch 1 then 0 else c_pay s m')
+                 else if Z.leb 9000 (g_val g m') then g_val g m' + 1000 else -1
                | None => -1 end in
     Some (put_thr t (set_pc (set_cnt x (S (t_seq x)) (pred (t_todo x)) 0) R0)
-            (w_uncov (if cov then c_uncov s else S (c_uncov s)) s), [(n_got, tagopt d); (n_fld, fld)])
+            (w_uncov (if cov then c_uncov s else S (c_uncov s)) s), [(n_got, valopt g d); (n_fld, fld)])
   | RMChk =>
     let rpos := rnext g s in
     if Z.eqb rpos (c_wcur s) then Some (go RCvWait, [])
@@ -560,8 +576,13 @@ Definition cinit (g : cfg) (nread : nat) (ks : nat -> nat) : csys :=
      c_thr := fun t => if Nat.eqb t 0 then thread0 R0 nread
                        else if Nat.leb t (g_nw g) then thread0 W0 (ks t) else thread0 WDone 0 |}.
 
+Definition mk_cfg_val (wk : wkind) (rm : rmode) (reqcap : Z) (nw maxtry : nat) (val : msg -> Z) : cfg :=
+  {| g_wk := wk; g_rm := rm; g_cap := round_cap reqcap; g_nw := nw; g_maxtry := maxtry; g_val := val |}.
+(* every message carries the address of its own payload object *)
 Definition mk_cfg (wk : wkind) (rm : rmode) (reqcap : Z) (nw maxtry : nat) : cfg :=
-  {| g_wk := wk; g_rm := rm; g_cap := round_cap reqcap; g_nw := nw; g_maxtry := maxtry |}.
+  mk_cfg_val wk rm reqcap nw maxtry tag.
+Definition with_val (g : cfg) (val : msg -> Z) : cfg :=
+  {| g_wk := g_wk g; g_rm := g_rm g; g_cap := g_cap g; g_nw := g_nw g; g_maxtry := g_maxtry g; g_val := val |}.
 
 (* memory orders that make the hand-over sound: release on every publication of write_cursor,
    acquire on the reader's load (sync / busy modes; the mutex mode hands over through
@@ -578,5 +599,15 @@ Definition lock_mo_ok (P : params) (wk : wkind) : bool :=
   | WSync => is_acq (mo_sync_cas P) && is_rel (mo_sync_store P)
   | WMutex | WSingle => true
   end.
+(* the consumer side (ModelRC.v): the reader's store of read_cursor must be a release store, so that
+   its slot read is ordered before the writer's next store into that slot (sync / busy modes; the
+   mutex mode orders them through read_mutex) *)
+Definition chan_rd_mo_ok (P : params) (rm : rmode) : bool :=
+  match rm with
+  | RSync => is_rel (mo_rs_store P)
+  | RBusy => is_rel (mo_rb_store P)
+  | RMutex => true
+  end.
 Definition mo_sufficient (P : params) : bool :=
-  chan_mo_ok P RSync && chan_mo_ok P RBusy && lock_mo_ok P WSpin && lock_mo_ok P WSync.
+  chan_mo_ok P RSync && chan_mo_ok P RBusy && lock_mo_ok P WSpin && lock_mo_ok P WSync &&
+  chan_rd_mo_ok P RSync && chan_rd_mo_ok P RBusy.
